@@ -7,6 +7,7 @@ use opcua::server::address_space::AddressSpace;
 use opcua::server::prelude::*;
 use opcua::server::session::Session;
 use opcua::sync::RwLock;
+use opcua::verif_hooks::aspace::VNodeManagementService;
 use opcua::verif_hooks::view::{browse_continuation_point_count, VViewService};
 use std::collections::HashMap;
 use std::sync::Arc;
@@ -61,6 +62,10 @@ impl Prop for C30 {
 
     fn gen(&self, rng: &mut Rng, n: usize, tier: Tier, out: &mut Vec<String>) {
         for case in 0..n {
+            if case % 3 == 1 {
+                scenario(rng, case / 3, out);
+                continue;
+            }
             out.push("reset".to_string());
             // universe of node ids 1..=u; a hub with many references now and then
             let big = rng.chance(1, 25) || (tier == Tier::Thorough && rng.chance(1, 10));
@@ -86,7 +91,7 @@ impl Prop for C30 {
             let len = if big { rng.range(4, 12) } else { rng.range(6, 40) };
             let flood = case % 17 == 3; // many live continuation points → eviction
             for _ in 0..len {
-                let w: &[u32] = if flood { &[10, 3, 1, 1, 0, 1, 1] } else { &[6, 8, 2, 1, 1, 1, 1] };
+                let w: &[u32] = if flood { &[10, 3, 1, 1, 0, 1, 1, 1] } else { &[6, 8, 2, 1, 1, 1, 1, 3] };
                 match rng.weighted(w) {
                     0 => {
                         let n = if rng.chance(1, 12) { rng.range(0, u as i64 + 2) as u32 } else { rng.range(1, u.min(4) as i64) as u32 };
@@ -134,7 +139,8 @@ impl Prop for C30 {
                         let t = rng.range(s as i64 + 1, u as i64) as u32;
                         out.push(format!("delref {} {} {}", s, t, rng.pick(&STORED_TYPES)));
                     }
-                    _ => out.push(format!("delnode {} {}", rng.range(1, u as i64), b(rng.chance(1, 2)))),
+                    6 => out.push(format!("delnode {} {}", rng.range(1, u as i64), b(rng.chance(1, 2)))),
+                    _ => out.push(random_mutation(rng, u)),
                 }
             }
         }
@@ -143,6 +149,92 @@ impl Prop for C30 {
     fn runner(&self) -> Box<dyn Runner> {
         Box::new(R::new())
     }
+}
+
+/// one of the remaining mutating entry points / NodeManagement services, random operands
+fn random_mutation(rng: &mut Rng, u: u32) -> String {
+    let s = rng.range(1, u as i64 - 1) as u32;
+    let t = rng.range(s as i64 + 1, u as i64) as u32;
+    let fresh = rng.range(2, u as i64 + 3) as u32;
+    let ty = *rng.pick(&STORED_TYPES);
+    let std_ty = *rng.pick(&[35u32, 47, 46, 40, 1000, 9999]);
+    match rng.below(9) {
+        0 => format!("nodep {} {} {} {}", fresh, rng.pick(&CLASSES), rng.range(1, fresh as i64 - 1), ty),
+        1 => format!("refs [{}:{}:{},{}:{}:{}]", s, t, ty, s, t, rng.pick(&STORED_TYPES)),
+        2 => format!("settype {} {}", rng.range(1, u as i64 + 1), rng.pick(&[58u32, 61, 63])),
+        3 => format!("folder {} {}", fresh, rng.range(1, fresh as i64 - 1)),
+        4 => format!("addvars {} [{},{}]", s, t, rng.range(s as i64 + 1, u as i64 + 3)),
+        5 => format!("sdelnode {} {}", rng.range(1, u as i64 + 1), b(rng.chance(1, 2))),
+        6 => format!("sdelref {} {} {} {} {}", s, t, std_ty, b(rng.chance(1, 2)), b(rng.chance(1, 3))),
+        7 => format!("sdelref {} {} {} {} {}", t, s, std_ty, b(rng.chance(1, 2)), b(rng.chance(1, 3))),
+        _ => {
+            let fwd = rng.chance(1, 2);
+            let (a, bb) = if fwd { (s, t) } else { (t, s) };
+            format!("saddref {} {} {} {} {}", a, bb, std_ty, b(fwd), rng.pick(&[1u32, 1, 1, 2, 0, 8]))
+        }
+    }
+}
+
+/// every mutating entry point with every flag value, applied between a paged Browse and the
+/// BrowseNext on its continuation point (nodes 1..5 of class Object, 1 → 2,3,4 Organizes,
+/// 2 → 5 HasComponent, 4 → 5 Organizes)
+const MUTATIONS: [&str; 34] = [
+    "node 9 1",
+    "node 3 1",
+    "nodep 9 2 1 35",
+    "nodep 3 2 1 35",
+    "ref 1 5 35",
+    "ref 1 2 35",
+    "refs [3:5:47,1:5:46]",
+    "refs []",
+    "settype 3 61",
+    "folder 9 1",
+    "folder 3 1",
+    "addvars 1 [8,9]",
+    "addvars 1 [3]",
+    "addvars 1 []",
+    "delref 1 4 35",
+    "delref 1 4 47",
+    "delref 4 1 35",
+    "delnode 4 0",
+    "delnode 4 1",
+    "delnode 3 0",
+    "delnode 3 1",
+    "delnode 2 0",
+    "delnode 2 1",
+    "delnode 9 0",
+    "delnode 9 1",
+    "sdelnode 4 0",
+    "sdelnode 4 1",
+    "sdelnode 9 0",
+    "sdelref 1 4 35 1 0",
+    "sdelref 4 1 35 0 0",
+    "sdelref 1 4 35 1 1",
+    "sdelref 1 4 1000 1 0",
+    "saddref 3 5 35 1 1",
+    "saddref 5 3 35 0 1",
+];
+
+fn scenario(rng: &mut Rng, k: usize, out: &mut Vec<String>) {
+    out.push("reset".to_string());
+    for id in 1..=5 {
+        out.push(format!("node {} 1", id));
+    }
+    for l in ["ref 1 2 35", "ref 1 3 35", "ref 1 4 35", "ref 2 5 47", "ref 4 5 35"] {
+        out.push(l.to_string());
+    }
+    // a second point on another node, in another direction, so that several points are outstanding
+    if rng.chance(1, 2) {
+        out.push("browse 5 1 0 0 0 63 1".to_string());
+    }
+    out.push(format!("browse 1 {} 0 0 0 63 {}", rng.pick(&[0u32, 0, 2]), rng.range(1, 2)));
+    out.push(MUTATIONS[k % MUTATIONS.len()].to_string());
+    if rng.chance(1, 3) {
+        out.push(MUTATIONS[rng.below(MUTATIONS.len() as u64) as usize].to_string());
+    }
+    out.push("next [@0]".to_string());
+    out.push("next [@1,@0]".to_string());
+    out.push("browse 1 0 0 0 0 63 0".to_string());
 }
 
 type D = (u32, u32, bool, u32); // target, reference type, is_forward, node class
@@ -415,70 +507,269 @@ fn first_fail(a: Verdict, b: Verdict) -> Verdict {
     }
 }
 
+
+const MUT_OPS: [&str; 12] = ["node", "nodep", "ref", "refs", "settype", "folder", "addvars", "delref", "delnode", "sdelnode", "sdelref", "saddref"];
+
+fn nid_ok(n: u32) -> bool {
+    (1..100000).contains(&n)
+}
+
+fn cls_ok(c: u32) -> bool {
+    [1, 2, 4, 8, 16, 32, 64, 128].contains(&c)
+}
+
+fn stored_ty_ok(t: u32) -> bool {
+    ty_ok(t) && t != 45
+}
+
+fn p32(s: &str) -> Option<u32> {
+    if s.starts_with('+') {
+        None
+    } else {
+        s.parse().ok()
+    }
+}
+
+fn pbool(s: &str) -> Option<bool> {
+    match s {
+        "0" => Some(false),
+        "1" => Some(true),
+        _ => None,
+    }
+}
+
+fn plist(s: &str) -> Option<Vec<&str>> {
+    let inner = s.strip_prefix('[')?.strip_suffix(']')?;
+    if inner.is_empty() {
+        Some(vec![])
+    } else {
+        Some(inner.split(',').collect())
+    }
+}
+
+fn node_class(c: u32) -> NodeClass {
+    match c {
+        1 => NodeClass::Object,
+        2 => NodeClass::Variable,
+        4 => NodeClass::Method,
+        8 => NodeClass::ObjectType,
+        16 => NodeClass::VariableType,
+        32 => NodeClass::ReferenceType,
+        64 => NodeClass::DataType,
+        128 => NodeClass::View,
+        _ => NodeClass::Unspecified,
+    }
+}
+
+fn make_node(id: u32, cls: u32) -> NodeType {
+    let nid = node_id(id);
+    let name = format!("n{}", id);
+    match cls {
+        1 => Object::new(&nid, name.as_str(), name.as_str(), EventNotifier::empty()).into(),
+        2 => Variable::new(&nid, name.as_str(), name.as_str(), 0i32).into(),
+        4 => Method::new(&nid, name.as_str(), name.as_str(), true, true).into(),
+        8 => ObjectType::new(&nid, name.as_str(), name.as_str(), false).into(),
+        16 => VariableType::new(&nid, name.as_str(), name.as_str(), DataTypeId::Int32.into(), false, -1).into(),
+        32 => ReferenceType::new(&nid, name.as_str(), name.as_str(), None, false, false).into(),
+        64 => DataType::new(&nid, name.as_str(), name.as_str(), false).into(),
+        _ => View::new(&nid, name.as_str(), name.as_str(), EventNotifier::empty(), true).into(),
+    }
+}
+
+impl R {
+    /// notes every id the op mentions, then takes the structural snapshot
+    fn snapshot_for(&mut self, toks: &[&str]) -> Vec<String> {
+        let mut ids = Vec::new();
+        for t in &toks[1..] {
+            for part in t.trim_matches(|c| c == '[' || c == ']').split(|c| c == ',' || c == ':') {
+                if let Ok(n) = part.parse::<u32>() {
+                    if nid_ok(n) && n <= 400 {
+                        ids.push(n);
+                    }
+                }
+            }
+        }
+        self.note_universe(&ids);
+        self.snapshot()
+    }
+
+    fn svc_status(resp: SupportedMessage) -> String {
+        let st = match resp {
+            SupportedMessage::DeleteNodesResponse(r) => r.results.unwrap_or_default().into_iter().next(),
+            SupportedMessage::DeleteReferencesResponse(r) => r.results.unwrap_or_default().into_iter().next(),
+            SupportedMessage::AddReferencesResponse(r) => r.results.unwrap_or_default().into_iter().next(),
+            SupportedMessage::ServiceFault(f) => Some(f.response_header.service_result),
+            _ => None,
+        };
+        match st {
+            Some(s) => format!("ok {}", s.name()),
+            None => "err no-result".to_string(),
+        }
+    }
+
+    /// validates (same rules as the model driver) and runs one mutating entry point of the real code
+    fn mutate(&mut self, toks: &[&str]) -> Option<String> {
+        let fx = fixtures::server();
+        let nm = VNodeManagementService::new();
+        match toks {
+            ["node", id, cls] => {
+                let (id, cls) = (p32(id)?, p32(cls)?);
+                if !nid_ok(id) || !cls_ok(cls) {
+                    return None;
+                }
+                let ok = self.address_space.write().insert(make_node(id, cls), None::<&[(&NodeId, &NodeId, ReferenceDirection)]>);
+                Some(format!("ok {}", b(ok)))
+            }
+            ["nodep", id, cls, parent, ty] => {
+                let (id, cls, parent, ty) = (p32(id)?, p32(cls)?, p32(parent)?, p32(ty)?);
+                if !nid_ok(id) || !cls_ok(cls) || parent < 1 || parent >= id || !stored_ty_ok(ty) {
+                    return None;
+                }
+                let ok = self.address_space.write().insert(make_node(id, cls), Some(&[(&node_id(parent), &ty_node(ty), ReferenceDirection::Inverse)]));
+                Some(format!("ok {}", b(ok)))
+            }
+            ["ref", s, t, ty] => {
+                let (s, t, ty) = (p32(s)?, p32(t)?, p32(ty)?);
+                if s < 1 || s >= t || !nid_ok(t) || !stored_ty_ok(ty) {
+                    return None;
+                }
+                self.address_space.write().insert_reference(&node_id(s), &node_id(t), ty_node(ty));
+                Some("ok".to_string())
+            }
+            ["refs", l] => {
+                let mut triples = Vec::new();
+                for e in plist(l)? {
+                    let p: Vec<&str> = e.split(':').collect();
+                    if p.len() != 3 {
+                        return None;
+                    }
+                    triples.push((p32(p[0])?, p32(p[1])?, p32(p[2])?));
+                }
+                if !triples.iter().all(|(s, t, ty)| *s >= 1 && s < t && nid_ok(*t) && stored_ty_ok(*ty)) {
+                    return None;
+                }
+                let owned: Vec<(NodeId, NodeId, NodeId)> = triples.iter().map(|(s, t, ty)| (node_id(*s), node_id(*t), ty_node(*ty))).collect();
+                let refs: Vec<(&NodeId, &NodeId, &NodeId)> = owned.iter().map(|(s, t, ty)| (s, t, ty)).collect();
+                self.address_space.write().insert_references(&refs);
+                Some("ok".to_string())
+            }
+            ["settype", id, t] => {
+                let (id, t) = (p32(id)?, p32(t)?);
+                if !nid_ok(id) || t < 1 || t >= 100000 {
+                    return None;
+                }
+                self.address_space.write().set_node_type(&node_id(id), NodeId::new(0, t));
+                Some("ok".to_string())
+            }
+            ["folder", id, parent] => {
+                let (id, parent) = (p32(id)?, p32(parent)?);
+                if !nid_ok(id) || parent < 1 || parent >= id {
+                    return None;
+                }
+                let name = format!("n{}", id);
+                let ok = self.address_space.write().add_folder_with_id(&node_id(id), name.as_str(), name.as_str(), &node_id(parent));
+                Some(format!("ok {}", b(ok)))
+            }
+            ["addvars", parent, ids] => {
+                let parent = p32(parent)?;
+                let ids: Option<Vec<u32>> = plist(ids)?.into_iter().map(p32).collect();
+                let ids = ids?;
+                if parent < 1 || !ids.iter().all(|i| parent < *i && nid_ok(*i)) {
+                    return None;
+                }
+                let vars: Vec<Variable> = ids
+                    .iter()
+                    .map(|i| {
+                        let name = format!("n{}", i);
+                        Variable::new(&node_id(*i), name.as_str(), name.as_str(), 0i32)
+                    })
+                    .collect();
+                let res = self.address_space.write().add_variables(vars, &node_id(parent));
+                Some(format!("ok [{}]", res.iter().map(|x| b(*x)).collect::<Vec<_>>().join(",")))
+            }
+            ["delref", s, t, ty] => {
+                let (s, t, ty) = (p32(s)?, p32(t)?, p32(ty)?);
+                if !nid_ok(s) || !nid_ok(t) || !ty_ok(ty) {
+                    return None;
+                }
+                let ok = self.address_space.write().delete_reference(&node_id(s), &node_id(t), ty_node(ty));
+                Some(format!("ok {}", b(ok)))
+            }
+            ["delnode", id, dtr] => {
+                let (id, dtr) = (p32(id)?, pbool(dtr)?);
+                if !nid_ok(id) {
+                    return None;
+                }
+                let ok = self.address_space.write().delete(&node_id(id), dtr);
+                Some(format!("ok {}", b(ok)))
+            }
+            ["sdelnode", id, dtr] => {
+                let (id, dtr) = (p32(id)?, pbool(dtr)?);
+                if !nid_ok(id) {
+                    return None;
+                }
+                let req = DeleteNodesRequest {
+                    request_header: RequestHeader::dummy(),
+                    nodes_to_delete: Some(vec![DeleteNodesItem { node_id: node_id(id), delete_target_references: dtr }]),
+                };
+                Some(Self::svc_status(nm.delete_nodes(fx.server_state.clone(), self.session.clone(), self.address_space.clone(), &req)))
+            }
+            ["sdelref", s, t, ty, fwd, bidir] => {
+                let (s, t, ty, fwd, bidir) = (p32(s)?, p32(t)?, p32(ty)?, pbool(fwd)?, pbool(bidir)?);
+                if !nid_ok(s) || !nid_ok(t) || s == t || !ty_ok(ty) {
+                    return None;
+                }
+                let req = DeleteReferencesRequest {
+                    request_header: RequestHeader::dummy(),
+                    references_to_delete: Some(vec![DeleteReferencesItem {
+                        source_node_id: node_id(s),
+                        reference_type_id: ty_node(ty),
+                        is_forward: fwd,
+                        target_node_id: ExpandedNodeId::new(node_id(t)),
+                        delete_bidirectional: bidir,
+                    }]),
+                };
+                Some(Self::svc_status(nm.delete_references(fx.server_state.clone(), self.session.clone(), self.address_space.clone(), &req)))
+            }
+            ["saddref", s, t, ty, fwd, cls] => {
+                let (s, t, ty, fwd, cls) = (p32(s)?, p32(t)?, p32(ty)?, pbool(fwd)?, p32(cls)?);
+                if !nid_ok(s) || !nid_ok(t) || !(if fwd { s < t } else { t < s }) || !stored_ty_ok(ty) || !(cls == 0 || cls_ok(cls)) {
+                    return None;
+                }
+                let req = AddReferencesRequest {
+                    request_header: RequestHeader::dummy(),
+                    references_to_add: Some(vec![AddReferencesItem {
+                        source_node_id: node_id(s),
+                        reference_type_id: ty_node(ty),
+                        is_forward: fwd,
+                        target_server_uri: UAString::null(),
+                        target_node_id: ExpandedNodeId::new(node_id(t)),
+                        target_node_class: node_class(cls),
+                    }]),
+                };
+                Some(Self::svc_status(nm.add_references(fx.server_state.clone(), self.session.clone(), self.address_space.clone(), &req)))
+            }
+            _ => None,
+        }
+    }
+}
+
 impl Runner for R {
     fn step(&mut self, toks: &[&str]) -> (String, Verdict) {
         let max_cps = opcua::server::constants::MAX_BROWSE_CONTINUATION_POINTS;
         match toks {
             ["reset"] => ("ok".to_string(), Verdict::Ok),
-            ["node", id, cls] => {
-                let (Ok(id), Ok(cls)) = (id.parse::<u32>(), cls.parse::<u32>()) else { return ("bad-op".into(), Verdict::Ok) };
-                if id == 0 || ![1, 2, 4, 8, 16, 32, 64, 128].contains(&cls) {
-                    return ("bad-op".into(), Verdict::Ok);
+            [op, ..] if MUT_OPS.contains(op) => {
+                let before = self.snapshot_for(toks);
+                match self.mutate(toks) {
+                    None => ("bad-op".to_string(), Verdict::Ok),
+                    Some(line) => {
+                        let changed = before != self.snapshot();
+                        let kind: &'static str = MUT_OPS.iter().find(|k| *k == op).copied().unwrap_or("mut");
+                        self.after_mutation(kind, changed);
+                        (line, Verdict::Ok)
+                    }
                 }
-                self.note_universe(&[id]);
-                let nid = node_id(id);
-                let name = format!("n{}", id);
-                let node: NodeType = match cls {
-                    1 => Object::new(&nid, name.as_str(), name.as_str(), EventNotifier::empty()).into(),
-                    2 => Variable::new(&nid, name.as_str(), name.as_str(), 0i32).into(),
-                    4 => Method::new(&nid, name.as_str(), name.as_str(), true, true).into(),
-                    8 => ObjectType::new(&nid, name.as_str(), name.as_str(), false).into(),
-                    16 => VariableType::new(&nid, name.as_str(), name.as_str(), DataTypeId::Int32.into(), false, -1).into(),
-                    32 => ReferenceType::new(&nid, name.as_str(), name.as_str(), None, false, false).into(),
-                    64 => DataType::new(&nid, name.as_str(), name.as_str(), false).into(),
-                    _ => View::new(&nid, name.as_str(), name.as_str(), EventNotifier::empty(), true).into(),
-                };
-                let before = self.snapshot();
-                let ok = self.address_space.write().insert(node, None::<&[(&NodeId, &NodeId, ReferenceDirection)]>);
-                let changed = before != self.snapshot();
-                self.after_mutation("node", changed);
-                (format!("ok {}", b(ok)), Verdict::Ok)
-            }
-            ["ref", s, t, ty] => {
-                let (Ok(s), Ok(t), Ok(ty)) = (s.parse::<u32>(), t.parse::<u32>(), ty.parse::<u32>()) else { return ("bad-op".into(), Verdict::Ok) };
-                if s == 0 || t <= s || !ty_ok(ty) || ty == 45 {
-                    return ("bad-op".into(), Verdict::Ok);
-                }
-                self.note_universe(&[s, t]);
-                let before = self.snapshot();
-                self.address_space.write().insert_reference(&node_id(s), &node_id(t), ty_node(ty));
-                let changed = before != self.snapshot();
-                self.after_mutation("ref", changed);
-                ("ok".to_string(), Verdict::Ok)
-            }
-            ["delref", s, t, ty] => {
-                let (Ok(s), Ok(t), Ok(ty)) = (s.parse::<u32>(), t.parse::<u32>(), ty.parse::<u32>()) else { return ("bad-op".into(), Verdict::Ok) };
-                if s == 0 || t == 0 || !ty_ok(ty) {
-                    return ("bad-op".into(), Verdict::Ok);
-                }
-                self.note_universe(&[s, t]);
-                let before = self.snapshot();
-                let ok = self.address_space.write().delete_reference(&node_id(s), &node_id(t), ty_node(ty));
-                let changed = before != self.snapshot();
-                self.after_mutation("delref", changed);
-                (format!("ok {}", b(ok)), Verdict::Ok)
-            }
-            ["delnode", id, dtr] => {
-                let Ok(id) = id.parse::<u32>() else { return ("bad-op".into(), Verdict::Ok) };
-                if id == 0 || !(*dtr == "0" || *dtr == "1") {
-                    return ("bad-op".into(), Verdict::Ok);
-                }
-                self.note_universe(&[id]);
-                let before = self.snapshot();
-                let ok = self.address_space.write().delete(&node_id(id), *dtr == "1");
-                let changed = before != self.snapshot();
-                self.after_mutation("delnode", changed);
-                (format!("ok {}", b(ok)), Verdict::Ok)
             }
             ["browse", n, dir, ty, sub, mask, rmask, req] => {
                 let (Ok(n), Ok(dir), Ok(ty), Ok(mask), Ok(rmask), Ok(req)) =
